@@ -89,10 +89,13 @@ pub fn hist_body<T: Evaluate + Sync + Send + 'static>(units: Arc<Vec<HUnit<T>>>,
             let fail = |what: String, got: String| {
                 let h: Vec<f64> = hist.iter().map(|&i| u.alpha[i]).collect();
                 let nan_before = h[..h.len() - 1].iter().any(|v| v.is_nan());
+                let hs: Vec<String> = h.iter().map(|x| lit(*x)).collect();
+                let body = format!("    let hist = [{}];\n    let mut ev = PiecewiseEvaluator::new(&pw.segments);\n    for &x in &hist {{\n        let got = ev.evaluate(x);\n        if !x.is_nan() {{ assert_eq!(got.to_bits(), pw.evaluate(x).to_bits(), \"query {{x:e}}\"); }}\n    }}", hs.join(", "));
                 let f = Fail::new(
                     what,
                     json!({"ends": fjs(&u.ends), "piece_type": u.kind, "history": fjs(&h), "failing_query_index": h.len() - 1,
-                           "direct_evaluation": u.direct[idx].map(fj), "evaluator_answer": got, "nan_query_earlier_in_history": nan_before}),
+                           "direct_evaluation": u.direct[idx].map(fj), "evaluator_answer": got, "nan_query_earlier_in_history": nan_before,
+                           "rust_repro": repro(&u.ends, &body)}),
                 );
                 f
             };
